@@ -1,17 +1,80 @@
-// replay <case file> : runs one saved case without any PBT library. exit 0 pass/known, 1 fail, 3 discard, 2 usage
+// replay <case file> [prop]           : runs one saved case without any PBT library. exit 0 pass, 1 fail, 3 discard, 4 known finding, 2 usage
+// replay --batch <list file> <stats>  : runs every case listed (one path per line); writes JSON stats; stops at the first failure (exit 1)
 #include <cstdio>
 #include <iostream>
+#include <map>
+#include <set>
+#include <sstream>
 #include "common/props.hpp"
 using namespace vf;
+
+static std::string jsonStr(const std::string &s) {
+    std::string o = "\"";
+    for (unsigned char c : s) {
+        if (c == '"') o += "\\\""; else if (c == '\\') o += "\\\\"; else if (c == '\n') o += "\\n";
+        else if (c < 0x20 || c >= 0x7F) { char b[8]; snprintf(b, sizeof b, "\\u%04x", c); o += b; }
+        else o.push_back(static_cast<char>(c));
+    }
+    return o + "\"";
+}
+
+static int batch(const char *listPath, const char *statsPath, const char *propOverride) {
+    std::string list; if (!readFileText(listPath, list)) { fprintf(stderr, "cannot read list\n"); return 2; }
+    std::istringstream is(list); std::string path;
+    long long evaluations = 0, discards = 0; std::set<uint64_t> nt; std::map<std::string, long long> tags, counters, known;
+    std::vector<std::string> samples; std::string failCase, failMsg, ntRule;
+    RunCtx ctx = makeCtx("batch");
+    int rc = 0;
+    while (std::getline(is, path)) {
+        if (path.empty()) continue;
+        std::string text, err; Case c;
+        if (!readFileText(path, text) || !parseCase(text, c, err)) { fprintf(stderr, "cannot read case %s: %s\n", path.c_str(), err.c_str()); return 2; }
+        if (propOverride && *propOverride) c.prop = propOverride;
+        const PropDef *p = findProp(c.prop);
+        if (!p) { fprintf(stderr, "unknown property %s\n", c.prop.c_str()); return 2; }
+        ntRule = p->ntRule ? p->ntRule : "";
+        writeFileText(ctx.scratch + "/current.case", text);
+        CaseResult r;
+        try { r = p->run(c, ctx); } catch (const std::exception &e) { r = CaseResult(); r.fail(std::string("exception escaped the property body: ") + e.what()); }
+        if (r.v == CaseResult::DISCARD) { ++discards; tags["discard:" + r.msg.substr(0, 60)]++; continue; }
+        ++evaluations;
+        for (auto &t : r.tags) tags[t]++;
+        for (auto &kv : r.counters) counters[kv.first] += kv.second;
+        if (r.nontrivial && nt.insert(fnv(r.ntKey.empty() ? text : r.ntKey)).second && samples.size() < 3) samples.push_back(text);
+        if (r.v == CaseResult::FAIL) {
+            if (!r.knownFinding.empty() && ctx.isOpen(r.knownFinding)) { known[r.knownFinding]++; continue; }
+            failCase = path; failMsg = r.msg; rc = 1; break;
+        }
+    }
+    std::ostringstream js;
+    js << "{\"evaluations\":" << evaluations << ",\"discards\":" << discards << ",\"distinct_nontrivial\":" << nt.size() << ",\"ok\":" << (rc == 0 ? "true" : "false")
+       << ",\"fail_msg\":" << jsonStr(failMsg) << ",\"fail_case\":" << jsonStr(failCase) << ",\"nt_rule\":" << jsonStr(ntRule) << ",\"tags\":{";
+    bool first = true;
+    for (auto &kv : tags) { js << (first ? "" : ",") << jsonStr(kv.first) << ":" << kv.second; first = false; }
+    js << "},\"counters\":{"; first = true;
+    for (auto &kv : counters) { js << (first ? "" : ",") << jsonStr(kv.first) << ":" << kv.second; first = false; }
+    js << "},\"known\":{"; first = true;
+    for (auto &kv : known) { js << (first ? "" : ",") << jsonStr(kv.first) << ":" << kv.second; first = false; }
+    js << "},\"nt_keys\":["; first = true;
+    for (auto k : nt) { js << (first ? "" : ",") << "\"" << k << "\""; first = false; }
+    js << "],\"samples\":["; first = true;
+    for (auto &s : samples) { js << (first ? "" : ",") << jsonStr(s); first = false; }
+    js << "]}\n";
+    writeFileText(statsPath, js.str());
+    return rc;
+}
+
 int main(int argc, char **argv) {
-    if (argc < 2) { fprintf(stderr, "usage: replay <case>\n"); return 2; }
+    if (argc < 2) { fprintf(stderr, "usage: replay <case> [prop] | replay --batch <list> <stats> [prop]\n"); return 2; }
+    if (std::string(argv[1]) == "--batch") { if (argc < 4) return 2; return batch(argv[2], argv[3], argc >= 5 ? argv[4] : nullptr); }
     std::string text, err; Case c;
     if (!readFileText(argv[1], text) || !parseCase(text, c, err)) { fprintf(stderr, "cannot read case: %s\n", err.c_str()); return 2; }
     if (argc >= 3) c.prop = argv[2];
     const PropDef *p = findProp(c.prop);
     if (!p) { fprintf(stderr, "unknown property %s\n", c.prop.c_str()); return 2; }
     RunCtx ctx = makeCtx("replay-" + c.prop);
-    CaseResult r = p->run(c, ctx);
+    CaseResult r;
+    try { r = p->run(c, ctx); } catch (const std::exception &e) { r = CaseResult(); r.fail(std::string("exception escaped the property body: ") + e.what()); }
     if (r.v == CaseResult::FAIL) {
         const bool known = !r.knownFinding.empty() && ctx.isOpen(r.knownFinding);
         printf("%s property=%s %s\n", known ? "KNOWN" : "FAIL", c.prop.c_str(), r.msg.c_str());
